@@ -9,7 +9,7 @@ V(b, tag) == IF b THEN {} ELSE {tag}
 
 Viol(o) == IF "format" \notin DOMAIN o.o \/ o.o.format # "ok" THEN {"format-panic-or-build"}
            ELSE IF o.o.r.r # "ok" THEN {"parse-" \o o.o.r.r}
-           ELSE V(J2LN(o.o.r.v) = J2LN(o.c.v), "roundtrip-differs")
+           ELSE V(J2LN(o.o.r.v) = J2LN(o.c.v), "roundtrip-differs") \cup V(o.o.entries_agree, "formatter-entry-points-write-different-texts")
 Drift(o) == IF "format" \notin DOMAIN o.o \/ o.o.format # "ok" \/ "exotic" \in DOMAIN o.c THEN {}
             ELSE LET m == LexParse(Chars(o.o.s)) IN
                  IF m.r # o.o.r.r THEN {"model-verdict"}
